@@ -201,10 +201,11 @@ fn wrap(id: i128, inner: Bx, c: &Cfg) -> Bx {
                 bx(MapErr::new(cb, conv))
             }
         }
-        3 => {
+        3 | 15 => {
             let mut b = RetryLayer::<i128, E>::builder()
                 .max_attempts(if c.mode == 1 { c.k + 1 } else { 3 })
-                .fixed_backoff(Duration::from_millis(1))
+                // variant 15: retries without any backoff (Duration::ZERO)
+                .fixed_backoff(if id == 15 { Duration::ZERO } else { Duration::from_millis(1) })
                 .retry_on(|e: &E| e.kind == TRANSIENT);
             for i in 0..nl {
                 let (h1, h2, h3, h4, h5) = (h(i), h(i), h(i), h(i), h(i));
